@@ -11,6 +11,9 @@ Correspondence (real code vs the Lean model `Splipy/Model/Sections.lean` run at 
   exception classes exactly.  Factory inputs whose bases differ are outside the model
   (make_splines_identical is C12's model): the model answers `unsupported`, accepted only for specs
   generated as oracle-only.
+Source-derived Lean: `regenerate` re-translates `sections`, `section_from_index`, `section_to_index`,
+  `check_section`, `check_direction` from the Python AST (harness/translate/sections_translate.py) into
+  lean/Splipy/Generated/C15.lean on every run; `C15_translated_*` prove them equal to the hand model.
 Oracle (model independent, real code, exact Fraction definitions from vlib/exact.py for the
   restriction of the object): section / corner / edge / face evaluates to the object restricted to
   that boundary (clamped, non-periodic fixed directions); const_par_curve(knot) evaluates to the
